@@ -370,6 +370,38 @@ def _nonzero_test_edges(body, x):
     return out
 
 
+def _below_bound_edges(body, x):
+    """Edges on which the unsigned local x is known to differ from / lie below a loop-invariant bound K (a parameter or a
+    constant): {edge: K operand}."""
+    out = {}
+    for (e, tb, f) in body.all_edge_facts():
+        c = as_cmp(f)
+        if not c:
+            continue
+        op, a, b = c
+        pa, pb = op_place(a), op_place(b)
+        def is_x(p):
+            if p is None or p["p"]:
+                return False
+            if p["l"] == x:
+                return True
+            d = body.single_def(p["l"])
+            return bool(d and d.kind == "assign" and d.node["rv"]["k"] == "use" and op_place(d.node["rv"]["op"])
+                        and op_place(d.node["rv"]["op"])["l"] == x and not op_place(d.node["rv"]["op"])["p"])
+        if is_x(pa):
+            k, o = b, op
+        elif is_x(pb):
+            k, o = a, {"Lt": "Gt", "Le": "Ge", "Gt": "Lt", "Ge": "Le", "Eq": "Eq", "Ne": "Ne"}[op]
+        else:
+            continue
+        if o not in ("Ne", "Lt"):
+            continue
+        lv = body.trace(k)
+        if lv and all(l.kind in ("param", "const") and not l.via for l in lv) and len({(l.kind, str(l.data), l.path) for l in lv}) == 1:
+            out[e] = k
+    return out
+
+
 def _reach_without(body, start, cut_edges):
     seen = {start}
     stack = [start]
@@ -681,6 +713,20 @@ def _discharge(fx, body, bb, t, kind, descr, cg=None, fkey=None):
                 pc = _place_counter(body, src) if src is not None and src["p"] else None
                 if pc:
                     return ("G6", "64-bit counter kept in a field / behind a reference: %d constant initialisation(s), %d step(s) by a small constant, no other write" % pc)
+            if op == "Add" and cb == 1 and ci and ci["steps"] and all(s_[1].startswith("Add") and s_[2] == 1 for s_ in ci["steps"]) \
+                    and ci["inits"] and all(const_int(body, i_[1]) == 0 for i_ in ci["inits"]):
+                # count-up towards a bound: starts at 0, the bound is >= 1 by a dominating guard, and every path from an increment
+                # back to an increment passes a test on which the counter differs from (or is below) the bound - so the counter
+                # is below the bound whenever it is incremented
+                cut = _below_bound_edges(body, ci["local"])
+                bounds = {(l.kind, str(l.data), l.path) for k_ in cut.values() for l in body.trace(k_)}
+                if cut and len(bounds) == 1:
+                    kop = next(iter(cut.values()))
+                    lo, _hi = int_interval_facts(body, bb, kop)
+                    ok_cycle = all(not _reaches_again(body, sb, bb, set(cut)) for (sb, _o, _c) in ci["steps"])
+                    if lo is not None and lo >= 1 and ok_cycle:
+                        return ("G2", "count-up: starts at 0, the bound is >= 1 by a dominating guard, and every path from an increment to the next "
+                                "passes a test on which the counter is not yet at the bound")
             if op == "Sub" and cb == 1:
                 # len - 1 under a non-empty guard
                 lx = _is_len_of(body, a)
